@@ -42,8 +42,6 @@ def idem_failures(h, cases):
 
 def classify(h, fails):
     """known-finding class of each failure, decided on the INPUT:
-       F29            the input has a do-block statement followed by a comment on the same line
-                      (and the second pass fails to parse)
        C07-roundtrip  the formatter's output for this input does not re-parse to the input's AST
                       (comments and spans ignored): property C07 already fails on this input
                       (F12-F14 dropped parentheses, F18 `if` + newline)"""
@@ -51,10 +49,7 @@ def classify(h, fails):
     out_ast = stripped_asts(h, [f[2][1] for f in fails])
     res = []
     for f, a, b in zip(fails, src_ast, out_ast):
-        sc = f[0]
-        if sc.case.do_trailing and f[3][0] != "OK":
-            res.append("F29")
-        elif a != b:
+        if a != b:
             res.append("C07-roundtrip")
         else:
             res.append(None)
